@@ -493,8 +493,20 @@ class Peel(_Settings, CartesianProductStrategy):
 # unary equivalences
 # --------------------------------------------------------------------------
 class _Unary(_Settings, DisjointUnionStrategy):
+    """Unary equivalences.  With two_way=False the strategy (conservatively)
+    declares that it is neither two-way nor reversible, which makes the
+    searcher record one-way equivalence edges."""
+
+    two_way = True
+
     def _child_and_map(self, c: WC):
         raise NotImplementedError
+
+    def is_two_way(self, comb_class) -> bool:
+        return bool(self.two_way)
+
+    def is_reversible(self, comb_class) -> bool:
+        return bool(self.two_way)
 
     def decomposition_function(self, c: WC):
         cm = self._child_and_map(c)
@@ -518,10 +530,11 @@ class _Unary(_Settings, DisjointUnionStrategy):
 class Reduce(_Unary):
     """Drop patterns that contain another pattern as a factor."""
 
-    SETTINGS = ("xf",)
+    SETTINGS = ("xf", "two_way")
 
-    def __init__(self, xf="id", **kw):
+    def __init__(self, xf="id", two_way=True, **kw):
         self.xf = xf
+        self.two_way = bool(two_way)
         kw.setdefault("possibly_empty", False)
         super().__init__(**kw)
 
@@ -538,10 +551,11 @@ class Reduce(_Unary):
 class StatXf(_Unary):
     """Drop identically-zero statistics / merge equal ones / rename them."""
 
-    SETTINGS = ("xf",)
+    SETTINGS = ("xf", "two_way")
 
-    def __init__(self, xf="dm", **kw):
+    def __init__(self, xf="dm", two_way=True, **kw):
         self.xf = xf
+        self.two_way = bool(two_way)
         kw.setdefault("possibly_empty", False)
         super().__init__(**kw)
 
@@ -646,7 +660,7 @@ class UpFactory(_FactorySettings, StrategyFactory):
     def __call__(self, c: WC):
         if c.just_prefix or c.is_empty():
             return
-        if self.mode & 1 and len(c.prefix) >= 1:
+        if self.mode & 1 and len(c.prefix) >= 1 and not c.strict:
             parent = c.derive(prefix=c.prefix[:-1])
             yield Expand(order=self.order)(parent)
         if self.mode & 2:
